@@ -73,7 +73,10 @@ class PyFileWriter(AbstractWriter):
 
         try:
             fd, tfile = tempfile.mkstemp(dir=self._path)
-            os.write(fd, encode(data))
+            buf = encode(data)
+            written = os.write(fd, buf)
+            if written != len(buf):
+                raise IOError('short write: %s of %s bytes' % (written, len(buf)))
             os.close(fd)
             os.rename(tfile, pyfile)
 
